@@ -22,21 +22,21 @@ theorem othersAny_false {f : Pc → Bool} {procs : List Proc} {p : Pid} :
     simp [this]
 
 /-- the two shapes of a step -/
-theorem step_cases (H : Nat → Nat) (ff : Bool) (s : St) (p : Pid) :
-    (s.procs[p]? = none ∧ step H ff s p = s) ∨
+theorem step_cases (H : Nat → Nat) (cfg : Cfg) (s : St) (p : Pid) :
+    (s.procs[p]? = none ∧ step H cfg s p = s) ∨
     (∃ pr, s.procs[p]? = some pr ∧
-      step H ff s p =
-        { g := (stepPc H ff pr.prog (othersAny Pc.holdsEX s.procs p) (othersAny Pc.holdsSH s.procs p) s.g pr.pc).1,
+      step H cfg s p =
+        { g := (stepPc H cfg pr.prog (othersAny Pc.holdsEX s.procs p) (othersAny Pc.holdsSH s.procs p) s.g pr.pc).1,
           procs := s.procs.set p
-            { pr with pc := (stepPc H ff pr.prog (othersAny Pc.holdsEX s.procs p) (othersAny Pc.holdsSH s.procs p) s.g pr.pc).2,
+            { pr with pc := (stepPc H cfg pr.prog (othersAny Pc.holdsEX s.procs p) (othersAny Pc.holdsSH s.procs p) s.g pr.pc).2,
                       pub := pr.pub || isPublish s.g pr.prog pr.pc } }) := by
   unfold step
   cases h : s.procs[p]? with
   | none => left; simp
   | some pr => right; exact ⟨pr, rfl, rfl⟩
 
-theorem run_inv {P : St → Prop} (H : Nat → Nat) (ff : Bool) (hstep : ∀ s p, P s → P (step H ff s p))
-    (init : St) (h0 : P init) (sched : List Pid) : P (run H ff init sched) := by
+theorem run_inv {P : St → Prop} (H : Nat → Nat) (cfg : Cfg) (hstep : ∀ s p, P s → P (step H cfg s p))
+    (init : St) (h0 : P init) (sched : List Pid) : P (run H cfg init sched) := by
   induction sched generalizing init with
   | nil => exact h0
   | cons p rest ih => exact ih _ (hstep _ _ h0)
@@ -67,8 +67,8 @@ theorem getElem?_set_cases {α : Type} {l : List α} {i j : Nat} {a x : α} (h :
     · cases h
   · right; simp [e] at h; exact ⟨fun h' => e h'.symm, h⟩
 
-theorem mutex_step (H : Nat → Nat) (ff : Bool) (s : St) (p : Pid) (hm : Mutex s) : Mutex (step H ff s p) := by
-  rcases step_cases H ff s p with ⟨_, h⟩ | ⟨pr, hpr, h⟩
+theorem mutex_step (H : Nat → Nat) (cfg : Cfg) (s : St) (p : Pid) (hm : Mutex s) : Mutex (step H cfg s p) := by
+  rcases step_cases H cfg s p with ⟨_, h⟩ | ⟨pr, hpr, h⟩
   · rw [h]; exact hm
   · rw [h]
     intro i j pi pj hi hj hex hj2
@@ -86,7 +86,7 @@ theorem mutex_step (H : Nat → Nat) (ff : Bool) (s : St) (p : Pid) (hm : Mutex 
           rcases hj2 with h2 | h2
           · simp [othersAny_true_of hj' hjp h2]
           · simp [othersAny_true_of hj' hjp h2]
-        have := stepPc_notEX H ff pr.prog (othersAny Pc.holdsEX s.procs i) (othersAny Pc.holdsSH s.procs i) s.g pr.pc hold hne
+        have := stepPc_notEX H cfg pr.prog (othersAny Pc.holdsEX s.procs i) (othersAny Pc.holdsSH s.procs i) s.g pr.pc hold hne
         simp only at hex
         rw [this] at hex; cases hex
     · -- i is another process in EX, p enters / stays in a locked section
@@ -97,12 +97,12 @@ theorem mutex_step (H : Nat → Nat) (ff : Bool) (s : St) (p : Pid) (hm : Mutex 
       · cases hold : pr.pc.holdsEX with
         | true => exact hip (hm i j pi pr hi' hpr hex (Or.inl hold))
         | false =>
-          have := stepPc_notEX H ff pr.prog (othersAny Pc.holdsEX s.procs j) (othersAny Pc.holdsSH s.procs j) s.g pr.pc hold (fun _ => by simp [hiEX])
+          have := stepPc_notEX H cfg pr.prog (othersAny Pc.holdsEX s.procs j) (othersAny Pc.holdsSH s.procs j) s.g pr.pc hold (fun _ => by simp [hiEX])
           rw [this] at h2; cases h2
       · cases hold : pr.pc.holdsSH with
         | true => exact hip (hm i j pi pr hi' hpr hex (Or.inr hold))
         | false =>
-          have := stepPc_notSH H ff pr.prog (othersAny Pc.holdsEX s.procs j) (othersAny Pc.holdsSH s.procs j) s.g pr.pc hold (fun _ => hiEX)
+          have := stepPc_notSH H cfg pr.prog (othersAny Pc.holdsEX s.procs j) (othersAny Pc.holdsSH s.procs j) s.g pr.pc hold (fun _ => hiEX)
           rw [this] at h2; cases h2
     · exact hm i j pi pj hi' hj' hex hj2
 
@@ -120,16 +120,16 @@ structure InvVC (H : Nat → Nat) (s : St) : Prop where
   pcs : ∀ (i : Nat) (pi : Proc), s.procs[i]? = some pi → PcComplete H s.g pi.prog pi.pc
   mutex : Mutex s
 
-theorem pcComplete_afterShare (H : Nat → Nat) (g' : Store) (prog : Prog) (g : Store) (r : Res) :
-    PcComplete H g' prog (afterShare prog g r).2 := by
-  rcases afterShare_pc prog g r with ⟨_, h⟩ | ⟨_, h⟩ | ⟨_, h⟩ <;> rw [h] <;> trivial
+theorem pcComplete_afterShare {cfg : Cfg} (H : Nat → Nat) (g' : Store) (prog : Prog) (g : Store) (r : Res) :
+    PcComplete H g' prog (afterShare cfg prog g r).2 := by
+  rcases afterShare_pc (cfg := cfg) prog g r with ⟨_, h⟩ | ⟨_, h⟩ | ⟨_, h⟩ | h <;> rw [h] <;> trivial
 
-theorem pcComplete_finishGc (H : Nat → Nat) (g' : Store) (prog : Prog) (g : Store) (r : Res) :
-    PcComplete H g' prog (finishGc prog g r).2 := by
-  rcases finishGc_pc prog g r with ⟨_, h⟩ | ⟨_, h⟩ | ⟨_, h⟩ <;> rw [h] <;> trivial
+theorem pcComplete_finishGc {cfg : Cfg} (H : Nat → Nat) (g' : Store) (prog : Prog) (g : Store) (r : Res) :
+    PcComplete H g' prog (finishGc cfg prog g r).2 := by
+  rcases finishGc_pc (cfg := cfg) prog g r with ⟨_, h⟩ | ⟨_, h⟩ | ⟨_, h⟩ | h <;> rw [h] <;> trivial
 
-theorem pcComplete_gcStart (H : Nat → Nat) (g' : Store) (prog : Prog) (g : Store) :
-    PcComplete H g' prog (gcStart prog g).2 := by
+theorem pcComplete_gcStart {cfg : Cfg} (H : Nat → Nat) (g' : Store) (prog : Prog) (g : Store) :
+    PcComplete H g' prog (gcStart cfg prog g).2 := by
   unfold gcStart
   split
   · exact pcComplete_finishGc ..
@@ -151,9 +151,9 @@ theorem pcComplete_gcNext (H : Nat → Nat) (g' : Store) (prog : Prog) (g : Stor
   · trivial
 
 /-- the segment's own next program counter satisfies its obligation in the new store -/
-theorem stepPc_pcComplete (H : Nat → Nat) (ff : Bool) (prog : Prog) (exO shO : Bool) (g : Store) (pc : Pc)
+theorem stepPc_pcComplete (H : Nat → Nat) (cfg : Cfg) (prog : Prog) (exO shO : Bool) (g : Store) (pc : Pc)
     (hs : ∀ b d, g.final b = some d → Complete H d) :
-    PcComplete H (stepPc H ff prog exO shO g pc).1 prog (stepPc H ff prog exO shO g pc).2 := by
+    PcComplete H (stepPc H cfg prog exO shO g pc).1 prog (stepPc H cfg prog exO shO g pc).2 := by
   cases pc
   case iVerify =>
     unfold stepPc; simp only
@@ -191,10 +191,10 @@ theorem stepPc_pcComplete (H : Nat → Nat) (ff : Bool) (prog : Prog) (exO shO :
   all_goals (repeat' split)
   all_goals first | trivial | exact pcComplete_afterShare .. | exact pcComplete_finishGc .. | exact pcComplete_gcStart .. | exact pcComplete_gcNext .. | exact pcComplete_gcPlan ..
 
-theorem complete_of_final (H : Nat → Nat) (ff : Bool) (prog : Prog) (exO shO : Bool) (g : Store) (pc : Pc)
+theorem complete_of_final (H : Nat → Nat) (cfg : Cfg) (prog : Prog) (exO shO : Bool) (g : Store) (pc : Pc)
     (hs : ∀ b d, g.final b = some d → Complete H d) (hpc : PcComplete H g prog pc) (b : Bid) (d' : PkgDir)
-    (h : (stepPc H ff prog exO shO g pc).1.final b = some d') : Complete H d' := by
-  rcases stepPc_final H ff prog exO shO g pc b with hsame | ⟨tmp, rfl, _, _, hnew⟩ | ⟨_, _, _, _, _, _, _, _, _, hnone⟩ |
+    (h : (stepPc H cfg prog exO shO g pc).1.final b = some d') : Complete H d' := by
+  rcases stepPc_final H cfg prog exO shO g pc b with hsame | ⟨tmp, rfl, _, _, hnew⟩ | ⟨_, _, _, _, _, _, _, _, _, hnone⟩ |
       ⟨d, info, mt, hb, hold, hnew, hok⟩
   · rw [hsame] at h; exact hs b d' h
   · rw [hnew] at h; cases h; exact hpc
@@ -216,19 +216,19 @@ theorem complete_of_final (H : Nat → Nat) (ff : Bool) (prog : Prog) (exO shO :
       rw [← hb, hold] at hd0; cases hd0
       rw [hc] at hc0; cases hc0; exact hh
 
-theorem invVC_step (H : Nat → Nat) (ff : Bool) (s : St) (p : Pid) (inv : InvVC H s) : InvVC H (step H ff s p) := by
-  have hmx := mutex_step H ff s p inv.mutex
-  rcases step_cases H ff s p with ⟨_, h⟩ | ⟨pr, hpr, h⟩
+theorem invVC_step (H : Nat → Nat) (cfg : Cfg) (s : St) (p : Pid) (inv : InvVC H s) : InvVC H (step H cfg s p) := by
+  have hmx := mutex_step H cfg s p inv.mutex
+  rcases step_cases H cfg s p with ⟨_, h⟩ | ⟨pr, hpr, h⟩
   · rw [h]; exact inv
   · rw [h] at hmx ⊢
     have hpcp := inv.pcs p pr hpr
     refine ⟨?_, ?_, hmx⟩
     · intro b d' hd'
-      exact complete_of_final H ff pr.prog _ _ s.g pr.pc inv.store hpcp b d' hd'
+      exact complete_of_final H cfg pr.prog _ _ s.g pr.pc inv.store hpcp b d' hd'
     · intro i pi hi
       simp only at hi ⊢
       rcases getElem?_set_cases hi with ⟨rfl, rfl, _⟩ | ⟨hip, hi'⟩
-      · exact stepPc_pcComplete H ff pr.prog _ _ s.g pr.pc inv.store
+      · exact stepPc_pcComplete H cfg pr.prog _ _ s.g pr.pc inv.store
       · have hold := inv.pcs i pi hi'
         cases hq : pi.pc with
         | iRename tmp => rw [hq] at hold; exact hold
@@ -238,7 +238,7 @@ theorem invVC_step (H : Nat → Nat) (ff : Bool) (s : St) (p : Pid) (inv : InvVC
           | some m' =>
             rw [hq] at hold
             obtain ⟨d, c, hd, hc, hh⟩ := hold
-            rcases stepPc_final H ff pr.prog (othersAny Pc.holdsEX s.procs p) (othersAny Pc.holdsSH s.procs p) s.g pr.pc
+            rcases stepPc_final H cfg pr.prog (othersAny Pc.holdsEX s.procs p) (othersAny Pc.holdsSH s.procs p) s.g pr.pc
                 (opBid pi.prog) with hsame | ⟨tmp, _, _, hnone, _⟩ | ⟨rm, cc, rest, t, dd, te, hpcm, _, _, _⟩ |
                 ⟨d0, info, mt, _, hold0, hnew, _⟩
             · exact ⟨d, c, by rw [hsame]; exact hd, hc, hh⟩
@@ -250,9 +250,9 @@ theorem invVC_step (H : Nat → Nat) (ff : Bool) (s : St) (p : Pid) (inv : InvVC
               exact ⟨_, c, hnew, hc, hh⟩
         | _ => trivial
 
-theorem invVC_run (H : Nat → Nat) (ff : Bool) (init : St) (h0 : InvVC H init) (sched : List Pid) :
-    InvVC H (run H ff init sched) :=
-  run_inv H ff (fun s p => invVC_step H ff s p) init h0 sched
+theorem invVC_run (H : Nat → Nat) (cfg : Cfg) (init : St) (h0 : InvVC H init) (sched : List Pid) :
+    InvVC H (run H cfg init sched) :=
+  run_inv H cfg (fun s p => invVC_step H cfg s p) init h0 sched
 
 def present (o : Option PkgDir) : Nat := if o.isSome then 1 else 0
 @[simp] theorem present_none : present none = 0 := rfl
@@ -276,27 +276,27 @@ theorem touch_present (g : Store) (b : Bid) (b' : Bid) :
   · subst e; cases g.final b' <;> simp
   · simp [e]
 
-theorem stepPc_gMove_cons (H : Nat → Nat) (ff : Bool) (prog : Prog) (exO shO : Bool) (g : Store)
+theorem stepPc_gMove_cons (H : Nat → Nat) (cfg : Cfg) (prog : Prog) (exO shO : Bool) (g : Store)
     (rm : List (Bid × Nat)) (c : Cand) (rest : List Cand) (t : Nat) (d te : Bool) (dd : PkgDir)
     (hf : g.final c.bid = some dd) :
-    let g' := (stepPc H ff prog exO shO g (.gMove rm (c :: rest) t d te)).1
+    let g' := (stepPc H cfg prog exO shO g (.gMove rm (c :: rest) t d te)).1
     g'.final = upd g.final c.bid none ∧ g'.nGc = upd g.nGc c.bid (g.nGc c.bid + 1) ∧ g'.nInst = g.nInst ∧
       g'.links = g.links := by
   unfold stepPc; simp only [hf]
   cases rest <;> simp only <;> (try split) <;> first | exact ⟨rfl, rfl, rfl, rfl⟩ | simp
 
-theorem stepPc_gMove_other (H : Nat → Nat) (ff : Bool) (prog : Prog) (exO shO : Bool) (g : Store)
+theorem stepPc_gMove_other (H : Nat → Nat) (cfg : Cfg) (prog : Prog) (exO shO : Bool) (g : Store)
     (rm : List (Bid × Nat)) (plan : List Cand) (t : Nat) (d te : Bool)
     (hf : ∀ c rest, plan = c :: rest → g.final c.bid = none) :
-    let g' := (stepPc H ff prog exO shO g (.gMove rm plan t d te)).1
+    let g' := (stepPc H cfg prog exO shO g (.gMove rm plan t d te)).1
     g'.final = g.final ∧ g'.nGc = g.nGc ∧ g'.nInst = g.nInst ∧ g'.links = g.links := by
   unfold stepPc; simp only
   cases plan with
   | nil => simp only; split <;> exact ⟨rfl, rfl, rfl, rfl⟩
   | cons c rest => simp only [hf c rest rfl]; split <;> exact ⟨rfl, rfl, rfl, rfl⟩
 
-theorem stepPc_countInv (H : Nat → Nat) (ff : Bool) (prog : Prog) (exO shO : Bool) (g : Store) (pc : Pc)
-    (h : CountInv g) : CountInv (stepPc H ff prog exO shO g pc).1 := by
+theorem stepPc_countInv (H : Nat → Nat) (cfg : Cfg) (prog : Prog) (exO shO : Bool) (g : Store) (pc : Pc)
+    (h : CountInv g) : CountInv (stepPc H cfg prog exO shO g pc).1 := by
   cases pc
   case iRename tmp =>
     unfold stepPc; simp only
@@ -314,16 +314,16 @@ theorem stepPc_countInv (H : Nat → Nat) (ff : Bool) (prog : Prog) (exO shO : B
   case gMove rm plan t d te =>
     cases plan with
     | nil =>
-      obtain ⟨h1, h2, h3, _⟩ := stepPc_gMove_other H ff prog exO shO g rm [] t d te (by intro c rest hh; cases hh)
+      obtain ⟨h1, h2, h3, _⟩ := stepPc_gMove_other H cfg prog exO shO g rm [] t d te (by intro c rest hh; cases hh)
       intro b; rw [h1, h2, h3]; exact h b
     | cons c rest =>
       cases hf : g.final c.bid with
       | none =>
-        obtain ⟨h1, h2, h3, _⟩ := stepPc_gMove_other H ff prog exO shO g rm (c :: rest) t d te
+        obtain ⟨h1, h2, h3, _⟩ := stepPc_gMove_other H cfg prog exO shO g rm (c :: rest) t d te
           (by intro c' rest' hh; cases hh; exact hf)
         intro b; rw [h1, h2, h3]; exact h b
       | some dd =>
-        obtain ⟨h1, h2, h3, _⟩ := stepPc_gMove_cons H ff prog exO shO g rm c rest t d te dd hf
+        obtain ⟨h1, h2, h3, _⟩ := stepPc_gMove_cons H cfg prog exO shO g rm c rest t d te dd hf
         intro b
         have := h b
         rw [h1, h2, h3]
@@ -347,10 +347,10 @@ theorem stepPc_countInv (H : Nat → Nat) (ff : Bool) (prog : Prog) (exO shO : B
   all_goals (repeat' split)
   all_goals first | exact h | (simp only [afterShare_fst, finishGc_fst, gcStart_fst, gcNext_fst, gcPlan_fst]; exact h) | (intro b; simpa using h b)
 
-theorem countInv_step (H : Nat → Nat) (ff : Bool) (s : St) (p : Pid) (h : CountInv s.g) : CountInv (step H ff s p).g := by
-  rcases step_cases H ff s p with ⟨_, e⟩ | ⟨pr, _, e⟩
+theorem countInv_step (H : Nat → Nat) (cfg : Cfg) (s : St) (p : Pid) (h : CountInv s.g) : CountInv (step H cfg s p).g := by
+  rcases step_cases H cfg s p with ⟨_, e⟩ | ⟨pr, _, e⟩
   · rw [e]; exact h
-  · rw [e]; exact stepPc_countInv H ff pr.prog _ _ s.g pr.pc h
+  · rw [e]; exact stepPc_countInv H cfg pr.prog _ _ s.g pr.pc h
 
 def Res.isInst : Res → Bool
   | .inst _ => true
@@ -371,21 +371,22 @@ def PubOk (prog : Prog) (pub : Bool) : Pc → Prop
   | .done (.inst b) => pub = b
   | _ => True
 
-theorem pubOk_afterShare_inst (prog : Prog) (g : Store) (b : Bool) : PubOk prog b (afterShare prog g (.inst b)).2 := by
+theorem pubOk_afterShare_inst {cfg : Cfg} (prog : Prog) (g : Store) (b : Bool) : PubOk prog b (afterShare cfg prog g (.inst b)).2 := by
   unfold afterShare
   split
   · rfl
-  · trivial
+  · simp only
+    split <;> trivial
 
-theorem pubOk_afterShare (prog : Prog) (pub : Bool) (g : Store) (r : Res) (hr : r.isInst = false) :
-    PubOk prog pub (afterShare prog g r).2 := by
+theorem pubOk_afterShare {cfg : Cfg} (prog : Prog) (pub : Bool) (g : Store) (r : Res) (hr : r.isInst = false) :
+    PubOk prog pub (afterShare cfg prog g r).2 := by
   unfold afterShare
   split
   · cases r <;> first | trivial | (simp [Res.isInst] at hr)
   · cases r <;> simp only <;> (try split) <;> (try split) <;> first | trivial | (simp [Res.isInst] at hr)
 
-theorem pubOk_finishGc (prog : Prog) (pub : Bool) (g : Store) (r : Res) (hr : r.isInst = false)
-    (hp : isInstall prog = true → pub = true) : PubOk prog pub (finishGc prog g r).2 := by
+theorem pubOk_finishGc {cfg : Cfg} (prog : Prog) (pub : Bool) (g : Store) (r : Res) (hr : r.isInst = false)
+    (hp : isInstall prog = true → pub = true) : PubOk prog pub (finishGc cfg prog g r).2 := by
   unfold finishGc
   cases hop : prog.op with
   | install ws b dst cl sz au lk =>
@@ -397,8 +398,8 @@ theorem pubOk_finishGc (prog : Prog) (pub : Bool) (g : Store) (r : Res) (hr : r.
     · exact pubOk_afterShare_inst prog g true
   | _ => simp only; cases r <;> first | trivial | (simp [Res.isInst] at hr)
 
-theorem pubOk_gcStart (prog : Prog) (pub : Bool) (g : Store)
-    (hp : isInstall prog = true → pub = true) : PubOk prog pub (gcStart prog g).2 := by
+theorem pubOk_gcStart {cfg : Cfg} (prog : Prog) (pub : Bool) (g : Store)
+    (hp : isInstall prog = true → pub = true) : PubOk prog pub (gcStart cfg prog g).2 := by
   unfold gcStart
   split
   · exact pubOk_finishGc prog pub g _ rfl hp
@@ -421,9 +422,9 @@ theorem pubOk_gcNext (prog : Prog) (pub : Bool) (g : Store) (rm todo : List (Bid
   · exact pubOk_gcPlan prog pub g rm c t hp
   · exact hp
 
-theorem stepPc_pubOk (H : Nat → Nat) (ff : Bool) (prog : Prog) (exO shO : Bool) (g : Store) (pc : Pc) (pub : Bool)
+theorem stepPc_pubOk (H : Nat → Nat) (cfg : Cfg) (prog : Prog) (exO shO : Bool) (g : Store) (pc : Pc) (pub : Bool)
     (h : PubOk prog pub pc) :
-    PubOk prog (pub || isPublish g prog pc) (stepPc H ff prog exO shO g pc).2 := by
+    PubOk prog (pub || isPublish g prog pc) (stepPc H cfg prog exO shO g pc).2 := by
   cases pc
   case iRename tmp =>
     have hp : pub = false := h
@@ -478,19 +479,19 @@ theorem stepPc_pubOk (H : Nat → Nat) (ff : Bool) (prog : Prog) (exO shO : Bool
 
 def PubInv (s : St) : Prop := ∀ (i : Nat) (pi : Proc), s.procs[i]? = some pi → PubOk pi.prog pi.pub pi.pc
 
-theorem pubInv_step (H : Nat → Nat) (ff : Bool) (s : St) (p : Pid) (h : PubInv s) : PubInv (step H ff s p) := by
-  rcases step_cases H ff s p with ⟨_, e⟩ | ⟨pr, hpr, e⟩
+theorem pubInv_step (H : Nat → Nat) (cfg : Cfg) (s : St) (p : Pid) (h : PubInv s) : PubInv (step H cfg s p) := by
+  rcases step_cases H cfg s p with ⟨_, e⟩ | ⟨pr, hpr, e⟩
   · rw [e]; exact h
   · rw [e]
     intro i pi hi
     simp only at hi
     rcases getElem?_set_cases hi with ⟨rfl, rfl, _⟩ | ⟨_, hi'⟩
-    · exact stepPc_pubOk H ff pr.prog _ _ s.g pr.pc pr.pub (h i pr hpr)
+    · exact stepPc_pubOk H cfg pr.prog _ _ s.g pr.pc pr.pub (h i pr hpr)
     · exact h i pi hi'
 
 /-- the counter of successful renames moves exactly in a publishing segment -/
-theorem stepPc_nInst (H : Nat → Nat) (ff : Bool) (prog : Prog) (exO shO : Bool) (g : Store) (pc : Pc) :
-    (stepPc H ff prog exO shO g pc).1.nInst =
+theorem stepPc_nInst (H : Nat → Nat) (cfg : Cfg) (prog : Prog) (exO shO : Bool) (g : Store) (pc : Pc) :
+    (stepPc H cfg prog exO shO g pc).1.nInst =
       if isPublish g prog pc then upd g.nInst (opBid prog) (g.nInst (opBid prog) + 1) else g.nInst := by
   cases pc
   case iRename tmp =>
@@ -505,12 +506,12 @@ theorem stepPc_nInst (H : Nat → Nat) (ff : Bool) (prog : Prog) (exO shO : Bool
   case gMove rm plan t d te =>
     simp only [isPublish]
     cases plan with
-    | nil => exact (stepPc_gMove_other H ff prog exO shO g rm [] t d te (by intro c rest hh; cases hh)).2.2.1
+    | nil => exact (stepPc_gMove_other H cfg prog exO shO g rm [] t d te (by intro c rest hh; cases hh)).2.2.1
     | cons c rest =>
       cases hf : g.final c.bid with
       | none =>
-        exact (stepPc_gMove_other H ff prog exO shO g rm (c :: rest) t d te (by intro c' rest' hh; cases hh; exact hf)).2.2.1
-      | some dd => exact (stepPc_gMove_cons H ff prog exO shO g rm c rest t d te dd hf).2.2.1
+        exact (stepPc_gMove_other H cfg prog exO shO g rm (c :: rest) t d te (by intro c' rest' hh; cases hh; exact hf)).2.2.1
+      | some dd => exact (stepPc_gMove_cons H cfg prog exO shO g rm c rest t d te dd hf).2.2.1
   case uLockPkg =>
     unfold stepPc; simp only [isPublish]
     repeat' split
@@ -527,9 +528,9 @@ def pubCount (procs : List Proc) (b : Bid) : Nat := procs.countP (fun q => q.pub
 /-- successful renames of `b` = `base b` + number of processes whose own rename of `b` succeeded -/
 def PubCount (base : Bid → Nat) (s : St) : Prop := ∀ b, s.g.nInst b = base b + pubCount s.procs b
 
-theorem pubCount_step (H : Nat → Nat) (ff : Bool) (base : Bid → Nat) (s : St) (p : Pid) (hp : PubInv s)
-    (h : PubCount base s) : PubCount base (step H ff s p) := by
-  rcases step_cases H ff s p with ⟨_, e⟩ | ⟨pr, hpr, e⟩
+theorem pubCount_step (H : Nat → Nat) (cfg : Cfg) (base : Bid → Nat) (s : St) (p : Pid) (hp : PubInv s)
+    (h : PubCount base s) : PubCount base (step H cfg s p) := by
+  rcases step_cases H cfg s p with ⟨_, e⟩ | ⟨pr, hpr, e⟩
   · rw [e]; exact h
   · rw [e]
     intro b
